@@ -310,6 +310,8 @@ class Interp:
         if isinstance(obj, ArrLit):
             if key in ('concat', 'slice'):
                 return Native('Array.' + key, lambda it, this, args, _k=key, _o=obj: it.array_method(_o, _k, args))
+        if isinstance(obj, CondVal) and key in ('concat', 'slice'):
+            return Native('Array.' + key, lambda it, this, args, _k=key, _o=obj: it.array_method(_o, _k, args))
         if isinstance(obj, (Closure, Native)):
             if key == 'call':
                 return Native('Function.call', lambda it, this, args, _f=obj: it.call(_f, args[1:], args[0] if args else UNDEFINED))
@@ -346,6 +348,8 @@ class Interp:
             for a in args:
                 segs += self.segs_of(a, as_concat_arg=True)
             return ArrLit(segs)
+        if name == 'slice' and isinstance(obj, CondVal):
+            return CondVal(obj.c, self.array_method(obj.a, name, args), self.array_method(obj.b, name, args))
         if name == 'slice':
             if isinstance(obj, (JArr, ArrLit)):
                 segs = self.segs_of(obj)
@@ -523,26 +527,15 @@ class Interp:
                 v = self.eval(x, env)
             return v
         if k == 'arr':
-            segs, cur = [], []
-            plain = True
+            vals = []
             for it in e[1]:
                 if it is None:
-                    cur.append(HOLE_PY)
+                    vals.append(('hole',))
                 elif it[0] == 'spread':
-                    plain = False
-                    segs.append(('elems', cur))
-                    cur = []
-                    sv = self.eval(it[1], env)
-                    if isinstance(sv, (JArr, ArrLit)):
-                        segs += self.segs_of(sv)
-                    else:
-                        segs.append(('spread', sv))
+                    vals.append(('spread', self.eval(it[1], env)))
                 else:
-                    cur.append(self.eval(it, env))
-            segs.append(('elems', cur))
-            if plain:
-                return JArr(cur)
-            return ArrLit(segs)
+                    vals.append(('elem', self.eval(it, env)))
+            return self.build_array(vals)
         if k == 'obj':
             if any(p[0] == 'spread' for p in e[1]):
                 segs, cur = [], []
@@ -667,6 +660,41 @@ class Interp:
         if k == 'binary':
             return self.binary(e[1], self.eval(e[2], env), self.eval(e[3], env))
         raise JsUnsupported('expression ' + k)
+
+    def build_array(self, vals):
+        for n, v in enumerate(vals):
+            if v[0] == 'spread' and isinstance(v[1], CondVal):
+                cv = v[1]
+                a = self.build_array(vals[:n] + [('spread', cv.a)] + vals[n + 1:])
+                b = self.build_array(vals[:n] + [('spread', cv.b)] + vals[n + 1:])
+                return CondVal(cv.c, a, b)
+        segs, cur, symbolic = [], [], False
+        for v in vals:
+            if v[0] == 'hole':
+                cur.append(HOLE_PY)
+            elif v[0] == 'elem':
+                cur.append(v[1])
+            else:
+                sv = v[1]
+                if isinstance(sv, JArr):
+                    cur += list(sv.items)
+                elif isinstance(sv, ArrLit):
+                    segs.append(('elems', cur))
+                    cur = []
+                    segs += sv.segs
+                    symbolic = symbolic or any(k != 'elems' for k, _ in sv.segs)
+                else:
+                    segs.append(('elems', cur))
+                    cur = []
+                    segs.append(('spread', sv))
+                    symbolic = True
+        segs.append(('elems', cur))
+        if not symbolic:
+            flat = []
+            for k, x in segs:
+                flat += x
+            return JArr(flat)
+        return ArrLit(segs)
 
     def data_like(self, v):
         if isinstance(v, JObj) and v.null_proto and not v.props:
